@@ -11,7 +11,7 @@
 From Coq Require Import QArith Qcanon Qcabs List Arith.
 From Verif.lib Require Import Bsp.
 From Verif.C02 Require Import Proofs.
-From Verif.C09 Require Import Model Proofs Proofs_entry.
+From Verif.C09 Require Import Model Proofs Proofs_entry Poly Proofs_exact.
 Import ListNotations.
 Open Scope Qc_scope.
 
@@ -340,12 +340,103 @@ Theorem nqp_default_exact : forall P du dv eps r c, (du + dv <= P)%nat ->
 Proof. exact nqp_default_exact_l. Qed.
 Print Assumptions nqp_default_exact.
 
-(* NOT PROVED (for the end-to-end "entries equal the exact integrals"): that the restriction of
-   N_i^(dv) * N_j^(du) (dNref) to one knot span IS a polynomial of degree <= P - du - dv, i.e. the
-   coefficient list that nqp_default_exact needs (piecewise-polynomial structure of the Cox-de Boor
-   recursion; evaluated exactly by the oracle harness/props/c09_oracle.py on every case), and
-   Gauss exactness beyond the bounded table check.  Definiteness of M / dim ker K = 1 need
-   unisolvence and are checked by exact LDL^T / rank on the oracle.
+(* ---- the Cox-de Boor functions are polynomials on every open knot span (Poly.v, Proofs_exact.v) ----
+   nref_poly kv p i s / dnref_poly kv k p i s: explicit coefficient lists (c_0, c_1, ...) built by the
+   Cox-de Boor / derivative recursions carried out on polynomials (multiplication by a linear factor,
+   scaling, addition); peval = Horner evaluation. *)
+Theorem nref_poly_spec : forall kv s u, sorted kv -> (S s < length kv)%nat -> kn kv s < u -> u < kn kv (S s) ->
+  forall p i, (i + p + 1 < length kv)%nat -> Nref kv p i u = peval (nref_poly kv p i s) u.
+Proof. exact nref_poly_eval. Qed.
+Print Assumptions nref_poly_spec.
+
+Theorem dnref_poly_spec : forall kv s u, sorted kv -> (S s < length kv)%nat -> kn kv s < u -> u < kn kv (S s) ->
+  forall k p i, (i + p + 1 < length kv)%nat -> dNref kv k p i u = peval (dnref_poly kv k p i s) u.
+Proof. exact dnref_poly_eval. Qed.
+Print Assumptions dnref_poly_spec.
+
+(* degree <= p - k (length = degree + 1) *)
+Theorem dnref_poly_degree : forall kv s k p i, (length (dnref_poly kv k p i s) <= p - k + 1)%nat.
+Proof. exact dnref_poly_length. Qed.
+Print Assumptions dnref_poly_degree.
+
+(* the polynomial operations mean what they say, and the product has the sum of the degrees *)
+Theorem poly_mul_eval : forall a b x, peval (pmul a b) x = peval a x * peval b x.
+Proof. exact peval_pmul. Qed.
+Print Assumptions poly_mul_eval.
+Theorem poly_mul_degree : forall a b, (length (pmul a b) <= length a + length b - 1)%nat.
+Proof. exact length_pmul. Qed.
+Print Assumptions poly_mul_degree.
+Theorem poly_comp_eval : forall p m h x, peval (pcomp p m h) x = peval p (m + h * x).
+Proof. exact peval_pcomp. Qed.
+Print Assumptions poly_comp_eval.
+
+(* the integrand N_i^(dv) N_j^(du) on span s IS the product polynomial, of degree <= 2p - du - dv
+   after pull-back to the reference cell [-1,1] *)
+Theorem span_product_polynomial : forall kv p du dv i j s u,
+  sorted kv -> (S s < length kv)%nat -> kn kv s < u -> u < kn kv (S s) ->
+  (i + p + 1 < length kv)%nat -> (j + p + 1 < length kv)%nat ->
+  dNref kv dv p i u * dNref kv du p j u = peval (span_poly kv p du dv i j s) u.
+Proof. exact span_poly_eval. Qed.
+Print Assumptions span_product_polynomial.
+
+Theorem cell_polynomial_degree : forall kv p du dv i j s, (du <= p)%nat -> (dv <= p)%nat ->
+  (length (cell_poly kv p du dv i j s) <= 2 * p - du - dv + 1)%nat.
+Proof. exact cell_poly_length. Qed.
+Print Assumptions cell_polynomial_degree.
+
+(* biform_1d_entry_exact: every entry of the weight-free matrix assembled by
+   bsp_mixed_deriv_biform_1d with a reference rule that passes the table check (rule_ok, defect eps)
+   for the DEFAULT node count equals the sum over the spans of the exactly integrated product
+   polynomial -- half-width_k * int_{-1}^{1} c_k, c_k = cell_poly = N_i^(dv) N_j^(du) restricted to
+   span k and pulled back to [-1,1], pint 0 c = sum_m c_m * int_{-1}^{1} x^m -- up to
+   eps * sum_k half-width_k * ||c_k||_1.  For numpy's tables rule_ok holds with eps = 2e-15
+   (generated obligation leggauss_exact_bounded_qc, node counts <= 6). *)
+Theorem biform_1d_entry_exact_partial : forall kv p du dv ref eps i j,
+  kv_ok kv p -> (du <= p)%nat -> (dv <= p)%nat ->
+  rule_ok eps (Z.to_nat (nqp_default (2 * p) du dv)) ref = true ->
+  (i < numdofs kv p)%nat -> (j < numdofs kv p)%nat ->
+  let sp k := nth k (span_indices kv) 0%nat in
+  Qcabs (entry1d kv p du dv ref None i j
+         - sumf (fun k => span_half kv (sp k) * pint 0 (cell_poly kv p du dv i j (sp k))) (seq 0 (numspans kv)))
+  <= eps * sumf (fun k => span_half kv (sp k) * l1norm (cell_poly kv p du dv i j (sp k))) (seq 0 (numspans kv)).
+Proof. exact biform_1d_entry_exact_l. Qed.
+Print Assumptions biform_1d_entry_exact_partial.
+
+(* ... with an exact rule (eps = 0) the entries ARE these sums of exact integrals *)
+Theorem biform_1d_entry_exact_rule0 : forall kv p du dv ref i j,
+  kv_ok kv p -> (du <= p)%nat -> (dv <= p)%nat ->
+  rule_ok 0 (Z.to_nat (nqp_default (2 * p) du dv)) ref = true ->
+  (i < numdofs kv p)%nat -> (j < numdofs kv p)%nat ->
+  let sp k := nth k (span_indices kv) 0%nat in
+  entry1d kv p du dv ref None i j
+  = sumf (fun k => span_half kv (sp k) * pint 0 (cell_poly kv p du dv i j (sp k))) (seq 0 (numspans kv)).
+Proof. exact biform_1d_entry_exact0_l. Qed.
+Print Assumptions biform_1d_entry_exact_rule0.
+
+(* the same for the two-space routine: grid cell k lies in span S1[k] of kv1 and S2[k] of kv2 *)
+Theorem biform_asym_entry_exact_partial : forall kv1 p1 kv2 p2 du dv grid S1 S2 ref eps i j,
+  kv_ok kv1 p1 -> kv_ok kv2 p2 -> (du <= p1)%nat -> (dv <= p2)%nat ->
+  grid_in_spans kv1 grid S1 -> grid_in_spans kv2 grid S2 ->
+  rule_ok eps (Z.to_nat (nqp_default (p1 + p2) du dv)) ref = true ->
+  (i < numdofs kv2 p2)%nat -> (j < numdofs kv1 p1)%nat ->
+  let coo := biform_asym_coo kv1 p1 kv2 p2 du dv grid ref in
+  let cp k := cell_poly2 kv1 p1 kv2 p2 du dv i j (nth k S1 0%nat) (nth k S2 0%nat) (nth k grid 0) (nth (S k) grid 0) in
+  let hw k := half * (nth (S k) grid 0 - nth k grid 0) in
+  Qcabs (coo_get (fst coo) (snd coo) i j - sumf (fun k => hw k * pint 0 (cp k)) (seq 0 (length grid - 1)))
+  <= eps * sumf (fun k => hw k * l1norm (cp k)) (seq 0 (length grid - 1)).
+Proof. exact biform_asym_entry_exact_l. Qed.
+Print Assumptions biform_asym_entry_exact_partial.
+
+(* NOT PROVED (what separates the two _partial theorems from "entries equal the exact integrals
+   int N_i^(dv) N_j^(du) dx" for the implementation):
+   - Gauss-Legendre exactness itself: the true nodes are irrational, numpy's tables satisfy rule_ok
+     only with eps = 2e-15 (checked at run time for q <= 13 in integers, q <= 6 in the Qc form
+     these theorems consume); with an exact rational rule the statement is biform_1d_entry_exact_rule0;
+   - the change of variables half-width * int_{-1}^{1} C(m + h xi) d xi = int_a^b C(x) dx is used as the
+     definition of the exact integral over a span (pint is the closed form sum_m c_m * 2/(m+1) [m even]);
+   - floating point: rounding of the implementation is bounded only by the tie (bound R in c09.py);
+   - weight functions (polynomial weights would need nqp passed explicitly; covered by the oracle);
+   - definiteness of M / dim ker K = 1 (unisolvence): exact LDL^T / rank on the oracle.
    The lemma below is the per-node scatter identity biform_1d_entry was built from. *)
 Theorem biform_1d_entry_partial : forall kv p ref k x w,
   kv_ok kv p ->
